@@ -65,6 +65,7 @@ def run(chk):
     chk.rule("R4", "every catalogue operator has an API construction site; generated methods exist for generate_expr_method operators")
     chk.rule("R5", "sign analysis: Polars emulation of truncating // and % yields sign(lhs)*sign(rhs) resp. sign(lhs)")
     chk.rule("R7", "SQL implementations of string-valued operators return a typed expression (an untyped func.X(..) makes `+` render as numeric addition instead of ||)")
+    chk.rule("R6v", "SQLite emulations of horizontal max / min and clip: interpreted to SQL terms and evaluated for every valuation of 1-4 arguments over {NULL,1,2,3} against the documented result")
     chk.rule("R6", "nullness analysis: horizontal min / max emulations on strict engines return NULL iff all arguments are NULL")
 
     ce = repo.mod("tree.col_expr")
@@ -236,6 +237,56 @@ def run(chk):
                        f"`{r.func.name}` ({store}, {cat.op(opvar).name}) does not skip nulls: for arguments {bad[0][0] if bad else ''} the result is "
                        f"{bad[0][1] if bad else ''} but documented {bad[0][2] if bad else ''} ({len(bad)} of {len(res)} nullness cases)")  # fmt: skip
     chk.floor("R6", "null-skipping emulations analysed", n6, 4)
+
+    # ---- R6v value level: the emulations are interpreted over terms (termsim) and the terms evaluated over {NULL,1,2,3}
+    from .. import sqleval
+    from ..interp import PyRaise, SymbolicBranch, Var
+    from ..termsim import TermWorld
+
+    def _mx(*v):
+        nn = [x for x in v if x is not None]
+        return max(nn) if nn else None
+
+    def _mn(*v):
+        nn = [x for x in v if x is not None]
+        return min(nn) if nn else None
+
+    n6v = 0
+    for store, dialect in (("SqliteImpl", "sqlite"), ("IbmDb2Impl", "db2")):
+        worlds = {}
+        for opvar, spec in (("horizontal_max", _mx), ("horizontal_min", _mn)):
+            for r in [r for r in regs if r.store == store and r.opvar == opvar]:
+                tw = worlds.setdefault(r.module.name, TermWorld(r.module))
+                for k in (1, 2, 3, 4):
+                    vs = [f"x{i}" for i in range(k)]
+                    try:
+                        out = tw.run(r.func, [Var(v) for v in vs])
+                        if out[0] != "term":
+                            chk.ob("R6v", r.module, r.func, f"{store}.{r.func.name} with {k} arguments", False, f"`{r.func.name}` raises {out[1]} for {k} arguments")
+                            continue
+                        n_val, cex = sqleval.compare(out[1], vs, spec, dialect)
+                    except (sqleval.Unknown, AnalysisError, SymbolicBranch) as e:
+                        chk.note(f"R6v: {store}.{r.func.name}/{k} not evaluated ({str(e)[:100]})")
+                        continue
+                    n6v += 1
+                    chk.ob("R6v", r.module, r.func, f"{store}.{r.func.name} with {k} arguments: {n_val} valuations over {{NULL,1,2,3}} equal max/min of the non-null arguments", cex is None,
+                           f"`{r.func.name}` ({store}, {cat.op(opvar).name}, {k} arguments) compiles to {str(out[1])[:160]}; for {cex[0] if cex else ''} that is "
+                           f"{cex[1] if cex else ''}, documented {cex[2] if cex else ''} (the {'largest' if opvar.endswith('max') else 'smallest'} non-null argument)")  # fmt: skip
+        for r in [r for r in regs if r.store == store and r.opvar == "clip"]:
+            tw = worlds.setdefault(r.module.name, TermWorld(r.module))
+            for lo, hi in ((1, 2), (2, 3), (1, 3)):
+                try:
+                    out = tw.run(r.func, [Var("x"), lo, hi])
+                    n_val, cex = sqleval.compare(out[1], ["x"], lambda x, _lo=lo, _hi=hi: None if x is None else max(min(x, _hi), _lo), dialect)
+                except (sqleval.Unknown, AnalysisError, SymbolicBranch, PyRaise) as e:
+                    chk.note(f"R6v: {store}.{r.func.name} not evaluated ({str(e)[:100]})")
+                    continue
+                n6v += 1
+                chk.ob("R6v", r.module, r.func, f"{store}.{r.func.name}(x, {lo}, {hi}): clamps non-null x, NULL stays NULL", cex is None,
+                       f"`{r.func.name}` ({store}, clip) compiles to {str(out[1])[:160]}; for {cex[0] if cex else ''} that is {cex[1] if cex else ''}, documented "
+                       f"{cex[2] if cex else ''} (clip of a missing value is missing)")  # fmt: skip
+    chk.floor("R6v", "finite-domain evaluations of null-skipping emulations", n6v, 17)
+    chk.trusted.append("sqleval: SQL semantics of scalar MAX/MIN (SQLite), GREATEST/LEAST, COALESCE, CASE, IS NULL, three-valued comparison")
 
     chk.assumptions += [
         "Polars and SQLAlchemy overload the Python operators homomorphically (x + y builds an addition)",
